@@ -161,7 +161,11 @@ func genC11(g *Gen) {
 		g.concMany()
 	}
 	for rep := 0; rep < g.pick(3, 40); rep++ {
-		g.concHeavy([]int{600, 1200, 2500}[g.rng.Intn(g.pick(2, 3))])
+		if g.thorough() {
+			g.concHeavy([]int{600, 1200, 2500}[g.rng.Intn(3)])
+		} else {
+			g.concHeavy([]int{500, 700, 900}[rep%3]) // quick: similar sizes, so that no trace shard takes much longer than the others
+		}
 	}
 	colsets := []string{"ABF", "AFTSE", "SREX", "SXE", "ATE", "ABCFGTUSRED"}
 	sizes := []int{3, 8, 20, 60, 200}
